@@ -389,6 +389,9 @@ def describe_source(P, src, fns, kind, input_val):
             return "str-chars", None, {}
         return "str-chars", "the parser does not read str::chars() of the whole input: %r" % (src,), {}
     # bytes
+    if is_tag(src, "chars-of") and is_tag(src.tag[1], "str-of") and src.tag[1].tag[1] == input_val:
+        # a path on which validation of the whole input succeeded and its characters are read directly
+        return "std-valid", None, {}
     n = tyname(P, src)
     if n == "utf8_decode::safe::Decoder":
         b = src.fields[0]
